@@ -59,7 +59,7 @@ def check(ctx):
             k1 = gen.mkcontract(c)
         except Exception:
             continue
-        kind = rng.choice(["fresh", "to_input", "to_output", "absent", "same", "swap", "roundtrip", "chain", "cancel"])
+        kind = rng.choice(["fresh", "to_input", "to_output", "absent", "same", "swap", "roundtrip", "chain", "cancel", "repeated_pair"])
         src = rng.choice(vs)
         if kind == "cancel":
             # merging two variables of the same side whose coefficients cancel exactly: the renamed constraint is a bare constant
@@ -89,6 +89,18 @@ def check(ctx):
             maps = [("q9", rng.choice(vs + ["n1"]))]
         elif kind == "same":
             maps = [(src, src)]
+        elif kind == "repeated_pair":
+            # the SAME (source, target) pair occurs twice in one list, with a mapping in between that re-creates the source name: every
+            # mapping applies to the contract produced by the preceding ones
+            a, b = (rng.sample(ins, 2) if len(ins) >= 2 else (rng.sample(outs, 2) if len(outs) >= 2 else (src, "n1")))
+            form = rng.choice(["swap_twice", "there_back_there", "merge_recreate_merge"])
+            if form == "swap_twice" and b != "n1":
+                maps = [(a, "tmp"), (b, a), ("tmp", b)] * 2
+            elif form == "merge_recreate_merge" and b != "n1":
+                third = next((v for v in (ins if a in ins else outs) if v not in (a, b)), None)
+                maps = [(a, b), (third, a), (a, b)] if third else [(a, "n1"), ("n1", a), (a, "n1")]
+            else:
+                maps = [(src, "n1"), ("n1", src), (src, "n1")]
         elif kind == "swap":
             a, b = rng.sample(vs, 2)
             maps = [(a, "tmp"), (b, a), ("tmp", b)]
